@@ -5,13 +5,20 @@
 (* live revision answered finalized: true.                                                       *)
 EXTENDS Integers, Sequences, FiniteSets, TLC, Json
 CONSTANTS Methods
-VARIABLES finLatest, finOld, method, twoLive
-vars == <<finLatest, finOld, method, twoLive>>
-Init == finLatest \in BOOLEAN /\ finOld \in BOOLEAN /\ method \in Methods /\ twoLive \in BOOLEAN
+\* staleOrphan: instead of the finalize story, somebody orphans the parent's ControllerRevisions and the parent is deleted
+\* (kept by a foreign finalizer) BEHIND a stale cache: the next sync meets a matching orphan revision and a parent that
+\* looks alive in its cache -- adoption is decided on a fresh read of the parent, for ControllerRevisions as for children (C04)
+VARIABLES finLatest, finOld, method, twoLive, staleOrphan
+vars == <<finLatest, finOld, method, twoLive, staleOrphan>>
+Init == /\ finLatest \in BOOLEAN /\ finOld \in BOOLEAN /\ method \in Methods /\ twoLive \in BOOLEAN /\ staleOrphan \in BOOLEAN
+        /\ (staleOrphan => (finLatest /\ finOld /\ twoLive))          \* (one scenario per method)
 Next == UNCHANGED vars
 Spec == Init /\ [][Next]_vars
 \* design-level statement of the aggregation
 MayRemove == finLatest /\ (twoLive => finOld)
 C10_AllAgree == (~finLatest \/ (twoLive /\ ~finOld)) => ~MayRemove
-Emit == PrintT("SCN|" \o ToJson([finLatest |-> finLatest, finOld |-> finOld, method |-> method, twoLive |-> twoLive, mayRemove |-> MayRemove]))
+MayAdoptRevision == ~staleOrphan       \* the live parent is being deleted: nothing may be adopted
+C04_RevisionsLikeChildren == staleOrphan => ~MayAdoptRevision
+Emit == PrintT("SCN|" \o ToJson([finLatest |-> finLatest, finOld |-> finOld, method |-> method, twoLive |-> twoLive, mayRemove |-> MayRemove,
+                                 staleOrphan |-> staleOrphan, mayAdopt |-> MayAdoptRevision]))
 =============================================================================
